@@ -39,6 +39,17 @@ class Dept(Org):
     pass
 
 
+@dataclass(eq=False, repr=False)
+class Bag(Org):
+    """a container-like organisation: falsy while it has no members, and iterable over them"""
+
+    def __len__(self):
+        return len(self.members)
+
+    def __iter__(self):
+        return iter(list(self.members))
+
+
 @dataclass(eq=False)
 class Person(Symbol):
     name: str
@@ -166,4 +177,5 @@ Org.has_part = HasPart(Org, "has_part")
 PERSON_CLASSES = {"Person": Person, "Employee": Employee, "Manager": Manager, "Volunteer": Volunteer,
                   "WorkingStudent": WorkingStudent}
 ORG_CLASSES = {"Org": Org, "Dept": Dept}
+ODD_CLASSES = {"Bag": Bag}
 ALL_CLASSES = {**PERSON_CLASSES, **ORG_CLASSES, "Chief": Chief, "VOrg": VOrg, "VPerson": VPerson}
